@@ -49,6 +49,22 @@ def rule_raw(ctx, R):
     for db, s, r in restarts:
         R.check(Cc in r and "to_string" in r, "raw:restart_is_c", "a command start restarts the raw text with the start character itself: %s" % r[:100], s["span"]["at"])
     app_blocks = [a[0] for a in appends] + [r[0] for r in restarts]
+    # a dot or ellipsis belongs to the command's text only where it counts (before the area part): in the dot branch
+    # the append sits behind the same state test as the count
+    ev = Events(b, fb, roles=roles)
+    dots_in = []
+    for gb in M.loop:
+        tt = b.blocks[gb]["term"]
+        if tt["k"] == "switch":
+            for sx in cfg.succ[gb]:
+                lab = ev.generic_edge(gb, tt, sx) or ""
+                if lab.startswith("BR[str::contains(K'.") and lab.endswith("=1") and Cc in lab:
+                    dots_in.append(sx)
+    st0 = p_c04._state0_edges(M)
+    if R.anchor(len(dots_in) == 1 and bool(st0), "raw:dots_branch", "the branch that handles dot characters and the test for parser state 0"):
+        in_branch = [a for a in appends if reaches_without(cfg, dots_in, a[0], cut_blocks=[M.head])]
+        bad = [t["span"]["at"] for bi, t, _ in in_branch if reaches_without(cfg, dots_in, bi, cut_blocks=[M.head], cut_edges=st0)]
+        R.check(bool(in_branch) and not bad, "raw:dots_only_counted", "a dot character is appended to the raw text exactly where it is counted (parser state 0); dots after the area part began are not part of the command's text: %s" % bad, in_branch[0][1]["span"]["at"] if in_branch else None)
     # mutations of the pending command inside the loop
     muts = []
     for key, nm in ((M.hangul, "syllable count"), (M.dot, "dot count")):
@@ -242,3 +258,30 @@ def _codeapi(ctx, R):
 
 
 RULES.append(("C08.CODEAPI", "the words kind / syllable count / dot count / area count / area mean the fields of the command record: getters and constructors of UnOptCode and OptCode (shared with C01.CODEAPI)", _codeapi))
+
+
+def rule_file(ctx, R):
+    """what `check`, `run`, `debug` and `build` parse is the text of the file: parse_file hands the string read_file
+    returned to parse::parse as it is, and returns what parse::parse returned"""
+    fb = ctx.fb_all
+    b = fb.bodies.get("hyeong::util::ext::parse_file")
+    if not R.anchor(b is not None, "parse_file", "ext::parse_file"):
+        return
+    R.analyse(b.name)
+    roles = Roles(b, fb, param_roles={1: "TERM", 2: "PATH", 3: "OPT"})
+    cfg = normal_cfg(b)
+    ps = [(bi, roles.of_operand(t["args"][0], bi)) for bi, t in b.calls() if callee_name(t["f"], fb) == "hyeong::core::parse::parse"]
+    oks = sorted({roles.of_origin(roles.org.of_rvalue(st["r"], bi, si)) for bi, blk in enumerate(b.blocks) if not blk["cleanup"] for si, st in enumerate(blk["stmts"]) if st["k"] == "assign" and st["p"]["l"] == 0 and not st["p"]["proj"] and st["r"]["k"] == "agg" and st["r"].get("variant") == "Ok"})
+    R.check(len(ps) == 1 and ps[0][1] == "TRY(io::read_file(PATH))" and oks == ["Result::Ok{parse::parse(TRY(io::read_file(PATH)))}"], "file:as_it_is", "parse_file parses exactly the text read from the file and returns exactly the parsed commands: parse(%s) -> %s" % ([p_[1] for p_ in ps], [o[:80] for o in oks]), b.span)
+    rf = fb.bodies.get("hyeong::util::io::read_file")
+    if R.anchor(rf is not None, "read_file", "io::read_file"):
+        R.analyse(rf.name)
+        r2 = Roles(rf, fb, param_roles={1: "PATH"})
+        cf = normal_cfg(rf)
+        reads = [(bi, r2.of_operand(t["args"][0], bi), vars_key) for bi, t in rf.calls() for vars_key in [Vars(rf).root_key(t["args"][1]) if len(t["args"]) > 1 else None] if callee_name(t["f"], fb).endswith("Read::read_to_string")]
+        oks2 = [(bi, Vars(rf).root_key(st["r"]["fields"][0])) for bi, blk in enumerate(rf.blocks) if not blk["cleanup"] for st in blk["stmts"] if st["k"] == "assign" and st["p"]["l"] == 0 and st["r"]["k"] == "agg" and st["r"].get("variant") == "Ok"]
+        muts = [callee_name(t["f"], fb) for bi, t in rf.calls() if t["args"] and reads and Vars(rf).root_key(t["args"][0]) == reads[0][2] and not callee_name(t["f"], fb).endswith("String::new")]
+        R.check(len(reads) == 1 and "File::open(PATH)" in reads[0][1] and len(oks2) == 1 and oks2[0][1] == reads[0][2] and not reaches_without(cf, [0], [oks2[0][0]], cut_blocks=[reads[0][0]]) and not muts, "file:whole_content", "read_file returns the whole content of the file it was asked for, untouched (read_to_string into the buffer that is returned; other uses of the buffer: %s)" % muts, rf.span)
+
+
+RULES.append(("C08.FILE", "the text that is parsed is the text of the file: parse_file and read_file hand it on untouched", rule_file))
